@@ -687,7 +687,10 @@ class SwitchController(MpfController):
                     next_event_time = k
 
         self.machine.events.process_event_queue()
-        if next_event_time:
+        # callbacks and event handlers above may have registered timed handlers (which scheduled a wake-up already)
+        # or changed the switch (which cancelled the pending entries). only schedule if our entry is still due
+        if next_event_time and switch not in self._timed_switch_handler_delay and \
+                next_event_time in self._active_timed_switches.get(switch, {}):
             handler = self.machine.clock.loop.call_at(
                 next_event_time,
                 partial(self._process_active_timed_switches, switch))
